@@ -3,3 +3,4 @@ import Proofs.C01Core
 import Proofs.C03Sym
 import Proofs.ThreePointC01
 import Proofs.RainflowCorollaries
+import Proofs.C01Literal
